@@ -222,6 +222,18 @@ mech("hex-decode-error-swallowed",
  "bytes_encoding=HEX decoder ignores a hex decoding error and lets protojson base64-decode the same text: the handler receives bytes the client never sent",
  [("C11","malformed/server/bytes_hex/*",["body-leaf-altered"],None)])
 
+mech("ts-client-repeated-query-comma-joined",
+ "generated TS client writes a repeated query field as ONE comma-joined value (String(array)) while the Go server (and the published contract: an array parameter, form style, exploded) reads repeated keys: numeric lists are rejected, string lists arrive as one element",
+ [("C08","interop/ts-client->go-server/place/query/*/repeated/*",["handler-not-reached","request-changed"],None)])
+
+mech("ts-client-path-variable-ignores-json-name",
+ "generated TS client fills a path variable from req.<lowerCamel of the variable> although the request interface names the property after the field's json_name: with an explicit json_name the URL carries the text 'undefined'",
+ [("C08","interop/ts-client->go-server/place/path/*~json_name/*",["request-changed","handler-not-reached"],None)])
+
+mech("query-enum-and-bytes-kinds",
+ "enum and bytes fields bound to the query string: the TS client sends the enum name / the base64 text, the Go server's string conversion knows neither kind and answers 400",
+ [("C08","interop/ts-client->go-server/place/query/{enum,bytes}/*",["handler-not-reached"],None)])
+
 mech("binary-body-cut-short-tolerated",
  "the emitted binary-body binder ignores io.ErrUnexpectedEOF from reading the request body (the JSON binder does not): an upload that ends before its declared Content-Length is decoded from what arrived and dispatched",
  [("C11","malformed/server/*@proto-valid/cut-short-of-declared-length",["dispatched-undecodable-body","status"],None)])
